@@ -76,7 +76,9 @@ impl HasNot<L, VL> for VL {
 /// meaning of a non-variable hyperedge label
 pub fn interp(l: L, x: &[u64], n_out: usize) -> Vec<u64> {
     if (BIN..BIN + 9).contains(&l) {
-        let (a, b) = (x[0], x[1]);
+        // every binary operator of the test signature is deliberately non-commutative (the left
+        // operand is rotated first), so that transposed operands change the meaning
+        let (a, b) = (x[0].rotate_left(1) ^ 0x5, x[1]);
         return vec![match l - BIN {
             0 => a.wrapping_add(b),
             1 => a.wrapping_mul(b),
@@ -630,7 +632,7 @@ fn gen_var_case(r: &mut Rng, tier: Tier) -> VarCase {
     let nin = r.range(1, 3);
     let in_labels: Vec<L> = (0..nin).map(|_| r.below(3) as L).collect();
     let max_steps = if tier == Tier::Thorough { 12 } else { 8 };
-    let n_steps = r.range(1, max_steps);
+    let n_steps = if r.chance(1, if tier == Tier::Thorough { 25 } else { 120 }) { r.range(12, 40) } else { r.range(1, max_steps) };
     let mut steps = vec![];
     let mut nv = nin;
     let mut n_clones = 0;
@@ -691,7 +693,7 @@ fn random_extension(r: &mut Rng, c: &VarCase) -> Vec<usize> {
 }
 
 fn gen_lax_term(r: &mut Rng) -> LaxTerm {
-    let n = r.range(0, 6);
+    let n = if r.chance(1, 100) { r.range(7, 30) } else { r.range(0, 6) };
     let labels = r.range(1, 3);
     let nodes: Vec<L> = (0..n).map(|_| r.below(labels) as L).collect();
     let mut edges = vec![];
